@@ -60,6 +60,10 @@ def gen_case(rng, tier, index):
             cur = projgen.apply_edit(cur, e, hist)
             hist.append(cur)
             ops.append(["edit", e])
+            if rng.random() < 0.3:
+                # cleaning between the edit and the rebuild: parents whose new variant has no
+                # directory yet stand above results that are still up to date
+                ops.append(["clean", rng.choice(["develop", "release", "release"]), rng.random() < 0.2, False])
             ops.append([rng.choice(["dev", "dev", "build"]), rng.choice([1, 2, 4]), rng.getrandbits(32)])
         elif r < 0.65:
             ops.append([rng.choice(["dev", "build"]), rng.choice([1, 2]), rng.getrandbits(32)])
@@ -102,6 +106,11 @@ def directed_cases(tier):
                ["edit", {"kind": "dep_env", "recipe": "p2", "index": 0, "var": "VA", "value": "c"}], [mode, 1, 3],
                ["clean", cm, False, False], [mode, 1, 4]]
         out.append({"model": model2, "ops": ops, "directed": "same package above two variants of a passed-on dependency"})
+        # clean right after an edit that gives the upper packages new (never built) variants
+        ops = [[mode, 1, 1],
+               ["edit", {"kind": "dep_env", "recipe": "p2", "index": 0, "var": "VA", "value": "d"}],
+               ["clean", cm, True, False], ["clean", cm, False, False], [mode, 1, 2], [mode, 1, 3]]
+        out.append({"model": model2, "ops": ops, "directed": "clean between an edit and the rebuild"})
     return out
 
 def _ws_of_script(script):
